@@ -69,6 +69,48 @@ func containsSync(n ast.Node) bool {
 	return found
 }
 
+// describeSync names the first synchronisation operation of node n (not descending into function literals): "go", "send",
+// "select", "recv", "close" or the method name of a call ("Lock", "Wait", "Err", ...).  It is written to points.txt so that a
+// harness can find a point by what it does rather than by its line.
+func describeSync(n ast.Node) string {
+	what := ""
+	ast.Inspect(n, func(x ast.Node) bool {
+		if what != "" {
+			return false
+		}
+		switch v := x.(type) {
+		case *ast.FuncLit:
+			return false
+		case *ast.GoStmt:
+			what = "go"
+		case *ast.SendStmt:
+			what = "send"
+		case *ast.SelectStmt:
+			what = "select"
+		case *ast.UnaryExpr:
+			if v.Op == token.ARROW {
+				what = "recv"
+			}
+		case *ast.CallExpr:
+			switch f := v.Fun.(type) {
+			case *ast.SelectorExpr:
+				if syncNames[f.Sel.Name] {
+					what = f.Sel.Name
+				}
+			case *ast.Ident:
+				if f.Name == "close" {
+					what = "close"
+				}
+			}
+		}
+		return what == ""
+	})
+	if what == "" {
+		what = "?"
+	}
+	return what
+}
+
 func (in *inst) point(pos token.Pos, what string) ast.Stmt {
 	id := *in.next
 	*in.next++
@@ -103,7 +145,7 @@ func (in *inst) stmts(list []ast.Stmt) []ast.Stmt {
 			flag = containsSync(s)
 		}
 		if flag {
-			out = append(out, in.point(s.Pos(), fmt.Sprintf("%T", s)))
+			out = append(out, in.point(s.Pos(), fmt.Sprintf("%T %s", s, describeSync(s))))
 		}
 		out = append(out, s)
 	}
